@@ -15,8 +15,8 @@ CONSTANTS
   NoResetOnDrop = FALSE
   BugStartPlus2 = FALSE
   BugNoFallback = FALSE
-  LazyRunner = FALSE
-  NoRunnerStart = FALSE
+  LazyRunner = TRUE
+  NoRunnerStart = TRUE
   BugIgnoreBelowReq = FALSE
 INVARIANTS TypeOK SafeLedger
 PROPERTIES StepOK Converges
